@@ -666,6 +666,9 @@ static size_t copy_chars (UCHAR* from, UCHAR* to, size_t count, interactive_t* i
                * Ok...  need to call a function on the interactive object,
                * passing the buffer as a paramater.
                */
+              /* The callbacks below run in the middle of a received packet: an error in one
+               * of them must not leave the decoder inside the sub-negotiation and the rest of
+               * the packet unread, so they are applied through safe_apply(). */
               ip->sb_buf[ip->sb_pos] = 0;	/* may need setup as a buffer */
               switch (ip->sb_buf[0])
                 {
@@ -674,7 +677,7 @@ static size_t copy_chars (UCHAR* from, UCHAR* to, size_t count, interactive_t* i
                     if (ip->sb_pos < 2 || ip->sb_buf[1] != TELQUAL_IS)
                       break;	/* too short: sb_buf[2..] is left over from earlier or never written */
                     copy_and_push_string ((char*)ip->sb_buf + 2);
-                    apply (APPLY_TERMINAL_TYPE, ip->ob, 1, ORIGIN_DRIVER);
+                    safe_apply (APPLY_TERMINAL_TYPE, ip->ob, 1, ORIGIN_DRIVER);
                     break;
                   }
                 case TELOPT_NAWS:
@@ -687,7 +690,7 @@ static size_t copy_chars (UCHAR* from, UCHAR* to, size_t count, interactive_t* i
                     h = ((UCHAR) ip->sb_buf[3]) * 256 + ((UCHAR) ip->sb_buf[4]);
                     push_number (w);
                     push_number (h);
-                    apply (APPLY_WINDOW_SIZE, ip->ob, 2, ORIGIN_DRIVER);
+                    safe_apply (APPLY_WINDOW_SIZE, ip->ob, 2, ORIGIN_DRIVER);
                     break;
                   }
                 case TELOPT_LINEMODE:
@@ -781,7 +784,7 @@ static size_t copy_chars (UCHAR* from, UCHAR* to, size_t count, interactive_t* i
                      * or something. --- Annihilator@ES2 [2002-05-07]
                      */
                     copy_and_push_string ((char*)ip->sb_buf);
-                    apply (APPLY_TELNET_SUBOPTION, ip->ob, 1, ORIGIN_DRIVER);
+                    safe_apply (APPLY_TELNET_SUBOPTION, ip->ob, 1, ORIGIN_DRIVER);
                     break;
                   }
                 }
